@@ -348,6 +348,12 @@ M("C09", "xyz-writer-scales-a-view", F + "xyz.py", r"(def dump_one\(f: TextIO, d
 
 M("C16", "selector-caches-on-function-object", "iodata/api.py", r"(def _select_format_module\((?:.|\n)*?\n    \"\"\"\n)", "\\1    _select_format_module.last = filename\n", "C16-R1")
 
+M("C18", "cli-positionals-swapped", "iodata/__main__.py", r'    parser\.add_argument\("input", help="The input file\."\)\n    parser\.add_argument\("output", help="The output file\."\)\n', '    parser.add_argument("output", help="The output file.")\n    parser.add_argument("input", help="The input file.")\n', "C18-R8")
+M("C18", "cli-short-flag-reused", "iodata/__main__.py", r'"-i", "--infmt"', '"-o", "--infmt"', "C18-R8")
+M("C18", "cli-allow-changes-default-set-behind-table", "iodata/__main__.py", r"    return parser\.parse_args\(\)", "    parser.set_defaults(allow_changes=True)\n    return parser.parse_args()", "C18-R8")
+M("C18", "cli-edits-loaded-object", "iodata/__main__.py", r"        dump_one\(load_one\(infn, fmt=infmt\), outfn, allow_changes=allow_changes, fmt=outfmt\)", '        data = load_one(infn, fmt=infmt)\n        data.title = "converted"\n        dump_one(data, outfn, allow_changes=allow_changes, fmt=outfmt)', "C18-R8")
+T("C18", "cli-loaded-object-in-a-local", "iodata/__main__.py", r"        dump_one\(load_one\(infn, fmt=infmt\), outfn, allow_changes=allow_changes, fmt=outfmt\)", "        data = load_one(infn, fmt=infmt)\n        dump_one(data, outfn, allow_changes=allow_changes, fmt=outfmt)")
+
 # ----------------------------------------------------------------------------- additions (fourth round, batch 6)
 M("C07", "extxyz-title-parsed-after-putback", F + "extxyz.py", r"    atom_columns, title_data = _parse_title\(title_line, lit\)\n    lit\.back\(title_line\)\n    lit\.back\(atom_line\)\n", "    lit.back(title_line)\n    lit.back(atom_line)\n    atom_columns, title_data = _parse_title(title_line, lit)\n", "C07-R8")
 M("C07", "mol2-atom-loop-skips-blank-lines", F + "mol2.py", r"(    for i in range\(natoms\):\n        words = next\(lit\)\.split\(\)\n)", "\\1        if not words:\n            continue\n", "C07-R9")
